@@ -4,9 +4,10 @@ For every function under a VERIFIED contract of property Cxx, small syntactic mu
 into scratch copies of /repo/src (under /tmp, removed at the end), and the obligations of that function are
 re-generated from the mutated AST and discharged.  A mutant is
 
-    killed      some obligation that is discharged on the unchanged function is now failed / unknown / no longer generated,
-                or the function left the verifier's subset (recorded separately as `undecided`: exit 2 of ./check, not a
-                violation);
+    killed      some obligation that is discharged on the unchanged function now FAILS (counter-model);
+    flagged     ... is now `unknown` (./check reports it: replay, or the baseline + source-hash rule);
+    undecided   obligations are no longer generated, or the function left the verifier's subset (exit 2 of ./check,
+                never a violation);
     survived    every obligation is still discharged: the contract does not notice the mutant.  Survivors are either
                 equivalent mutants (the change cannot be observed), a contract weaker than the code, or - worst - an
                 unsound proof.  They are listed for review.
@@ -157,6 +158,11 @@ def mutants_of(fn: ast.FunctionDef):
             par = parents.get(id(n))
             if par is None:
                 continue
+            if isinstance(n, ast.Assign) and all(isinstance(t, ast.Name) for t in n.targets):
+                # deleting the only binding of a local gives a NameError on first use: no test suite misses that
+                binds = [x for x in ast.walk(fn) if isinstance(x, ast.Name) and isinstance(x.ctx, ast.Store) and x.id == n.targets[0].id]
+                if len(binds) <= 1:
+                    continue
             new = copy.deepcopy(fn)
             tnode = list(ast.walk(new))[index[id(n)]]
             done = False
@@ -240,7 +246,7 @@ def run_child(scratch, prop, keys, timeout_ms, wall=900, base=None):
 
 def judge(base, res):
     """killed / undecided / survived for one mutant given baseline and mutant results (dict key -> result)."""
-    killed, undecided = [], []
+    killed, undecided, flagged = [], [], []
     for k, b in base.items():
         m = res.get(k)
         if m is None:
@@ -255,10 +261,16 @@ def judge(base, res):
             ms = m['obligations'].get(name)
             if ms == 'failed':
                 killed.append(name)
+            elif ms == 'unknown':
+                flagged.append(name)
             elif ms not in ('discharged', 'skipped'):
                 undecided.append(f'{name}: {ms}')
     if killed:
         return 'killed', killed
+    if flagged:
+        # discharged on the unchanged function, not provable on the changed one: ./check reports it (replayed; or
+        # `no-failing-input-found` by the baseline + source-hash rule)
+        return 'flagged', flagged
     if undecided:
         return 'undecided', undecided
     return 'survived', []
@@ -377,7 +389,7 @@ def main():
                 continue
             verdict, by = judge(base_of[q], res)
             ent['mutants'].append({'mutant': desc, 'verdict': verdict, 'by': by[:4]})
-        tot = {'killed': 0, 'undecided': 0, 'survived': 0, 'error': 0}
+        tot = {'killed': 0, 'flagged': 0, 'undecided': 0, 'survived': 0, 'error': 0}
         for q, ent in report.items():
             for m in ent['mutants']:
                 tot[m['verdict']] += 1
